@@ -8,6 +8,7 @@
 // self-deadlock instead of hanging.
 #pragma once
 #include "core.h"
+#include "ledger.h"
 #include <list>
 #include <map>
 #include <memory>
@@ -201,10 +202,11 @@ public:
 		if(write && !race) {
 			for(int i = 0; i < MAXT; ++i) if(i != m->id && l.reads.c[i] > m->vc.c[i]) { race = true; other = "read"; }
 		}
-		if(race) gctx()->fail("data-race", std::string("unsynchronised conflicting accesses to a shared container: ") + tag + " vs earlier " + other);
+		if(race) gctx()->fail("data-race", std::string("unsynchronised conflicting accesses to a shared container or object: ") + tag + " vs earlier " + other);
 		if(write) { l.lastWrite = m->vc; l.lastWriter = m->id; l.wtag = tag; l.reads = VClock(); }
 		else { l.reads.c[m->id] = m->vc.c[m->id]; }
 	}
+	void forgetLoc(const void * loc) { locs.erase(loc); }   // a new object at a reused address has no access history
 	void tick() { VThread * m = me(); if(m) m->vc.c[m->id]++; }
 	// what a thread learns from shared state; together with the operation index it determines the thread's local state
 	void observe(uint64_t v) { VThread * m = me(); if(m && active) m->obs = mix64(m->obs, v); }
@@ -217,6 +219,15 @@ public:
 };
 
 inline Sched & sched() { static Sched s; return s; }
+
+// feeds the race detector with the life of tracked objects (see Ledger::onObject); call after ledger().reset()
+inline void trackObjectsForRaces() {
+	ledger().onObject = [](const void * p, int kind) {
+		Sched & s = sched();
+		if(kind == 0) s.forgetLoc(p);
+		s.access(p, kind != 1, kind == 0 ? "object.construct" : kind == 1 ? "object.read" : "object.move-from-or-destroy");
+	};
+}
 
 inline bool Sched::enabled(VThread * t) const {
 	switch(t->st) {
